@@ -478,8 +478,11 @@ class CircuitOperation(ops.Operation):
         if self.parent_path:
             args += f'parent_path={proper_repr(self.parent_path)},\n'
         if self.use_repetition_ids:
-            # Default repetition_ids need not be specified.
-            args += f'repetition_ids={proper_repr(self.repetition_ids)},\n'
+            if self.repetition_ids is None:
+                # A single repetition has no ids; `repetition_ids=None` would mean "do not use ids".
+                args += 'use_repetition_ids=True,\n'
+            else:
+                args += f'repetition_ids={proper_repr(self.repetition_ids)},\n'
         if self.repeat_until:
             args += f'repeat_until={self.repeat_until!r},\n'
         indented_args = args.replace('\n', '\n    ')
